@@ -3,6 +3,8 @@
 package drv
 
 import (
+	"fmt"
+	"math/rand"
 	"strings"
 	"testing"
 
@@ -46,6 +48,41 @@ func TestSmokeRoundRobin(t *testing.T) {
 				t.Errorf("long=%v h=%d (committed) mismatch %s: %s", long, h, mm.Key, mm.Detail)
 			}
 			n.Discard()
+		}
+	}
+}
+
+// TidyReader.IterateRange must return exactly what the repository's DB.IterateRange returns.
+func TestTidyReaderMatchesRepository(t *testing.T) {
+	d := NewDB()
+	r := rand.New(rand.NewSource(7))
+	for i := 0; i < 300; i++ {
+		k := make([]byte, 1+r.Intn(4))
+		r.Read(k)
+		d.Set(k, []byte{byte(i)})
+	}
+	tr := TidyReader{d}
+	for i := 0; i < 5000; i++ {
+		a := make([]byte, 1+r.Intn(4))
+		b := make([]byte, 1+r.Intn(4))
+		r.Read(a)
+		r.Read(b)
+		limit := r.Intn(6) - 1
+		if limit == 0 {
+			limit = -1
+		}
+		rev := r.Intn(2) == 0
+		x := d.IterateRange(a, b, limit, rev)
+		y := tr.IterateRange(a, b, limit, rev)
+		sx, sy := "", ""
+		for _, kv := range x {
+			sx += fmt.Sprintf("%x=%x,", kv.Key(), kv.Value())
+		}
+		for _, kv := range y {
+			sy += fmt.Sprintf("%x=%x,", kv.Key(), kv.Value())
+		}
+		if sx != sy {
+			t.Fatalf("range %x..%x limit %d reverse %v: repository %s tidy %s", a, b, limit, rev, sx, sy)
 		}
 	}
 }
